@@ -867,13 +867,15 @@ class StateEngine(object):
             return
 
         """
-        self.executions.get(execution_arn) == None should only really happen if
+        not self.executions.get(execution_arn) should only really happen if
         the StateEngine has failed and been restarted and we are handling a
         redelivered message. When we add code IDC to persist execution metadata
         state we should hopefully be able to avoid the following condition upon
-        StateEngine restart.
+        StateEngine restart. Note that we test for "not" rather than "== None"
+        because the Redis backed store never returns None: for an unknown (e.g.
+        expired) key its get() returns an empty RedisDict.
         """
-        if self.executions.get(execution_arn) == None:
+        if not self.executions.get(execution_arn):
             self.logger.warning(
                 "StateEngine: update_execution_history: Execution {} does not "
                 "exist, probably due to StateEngine restart. Some history "
